@@ -175,6 +175,92 @@ def layout_path_scenario(chk):
     return len(cases)
 
 
+def nested(depth, leaf=0):
+    v = [leaf]
+    for _ in range(depth):
+        v = [v]
+    return v
+
+
+def overlap_scenario(chk):
+    """Call B is still in progress when call A returns (two preemptions): whatever a call sets up for its own
+    duration (interpreter settings, module-level scratch state) and undoes on return must not be taken away from
+    the other call. B prints, among others, deeply nested values: one the library prints, and one that exhausts the
+    interpreter's recursion limit when printed alone - its sequential result is that exception, and stays it.
+    Results are compared with those of the same calls made one after the other IN A THREAD (same stack budget).
+    Judged by spec/ConcurrentCalls.tla."""
+    import glob as _glob
+    import re as _re
+    q = chk.tier == 'quick'
+    pkgdir = os.path.dirname(P.__file__)
+    allfiles = _glob.glob(os.path.join(pkgdir, '*.py')) + _glob.glob(os.path.join(pkgdir, 'extras', '*.py'))
+    jobs = {'short': ([1, {'k': (2, 3)}], {}), 'broken': ([[1, 2, 3], ['four', 'five'], {'k': (6, 7)}], {'width': 12}),
+            'deep60': (nested(60), {}), 'deep150': (nested(150), {}), 'deep400': (nested(400), {'width': 30}),
+            'wide': (tuple(range(5)) * 11, {'width': 200, 'ribbon_width': 200}),
+            'sorted': ({'b': 1, 'a': [2, {'d': 3, 'c': 4}]}, {'sort_dict_keys': True, 'width': 10})}
+
+    def job(name):
+        def fn():
+            with warnings.catch_warnings():
+                warnings.simplefilter('ignore')
+                return P.pformat(jobs[name][0], **jobs[name][1])
+        return fn
+
+    def outcome(r):
+        return r[1] if r[0] == 'ok' else 'raised ' + _re.match(r'\w*', r[1]).group(0)
+
+    import threading as _th
+    seq = {}
+
+    def sequential():
+        for name in jobs:
+            try:
+                seq[name] = outcome(('ok', job(name)()))
+            except BaseException as e:  # noqa
+                seq[name] = outcome(('exc', repr(e)))
+    t = _th.Thread(target=sequential)
+    t.start()
+    t.join()
+    ids = {}
+    for name in jobs:
+        ids.setdefault(seq[name], len(ids) + 1)
+    chk.cov['overlap_sequential_outcomes'] = {k: (v if v.startswith('raised') else 'text of %d lines' % (v.count('\n') + 1))
+                                              for k, v in seq.items()}
+    pairs = [('short', 'deep150'), ('short', 'deep60'), ('broken', 'deep400'), ('deep60', 'short'), ('deep150', 'broken'),
+             ('wide', 'sorted'), ('sorted', 'wide'), ('short', 'wide'), ('broken', 'short')]
+    if q:
+        pairs = pairs[:6]
+    cases, meta = [], {}
+    for a, b in pairs:
+        _, _, na, nb = sched.run_overlapped(job(a), job(b), None, None, allfiles)
+        kas = sorted(set([1, 2, 3, 5, 8] + [max(1, na * i // (5 if q else 14)) for i in range(1, (5 if q else 14))] + [na - 1, na]))
+        kbs = sorted(set([1, 4] + [max(1, nb * i // (3 if q else 6)) for i in range(1, (3 if q else 6))]))
+        for ka in kas:
+            for kb in kbs:
+                ra, rb, _, _ = sched.run_overlapped(job(a), job(b), ka, kb, allfiles)
+                cid = len(cases) + 1
+                calls = [{'t': 1, 'seq': ids[seq[a]], 'got': ids.get(outcome(ra), 0 if ra[0] == 'ok' else -1)},
+                         {'t': 2, 'seq': ids[seq[b]], 'got': ids.get(outcome(rb), 0 if rb[0] == 'ok' else -1)}]
+                cases.append({'id': cid, 'calls': calls})
+                meta[cid] = {'threads': ['pformat(<%s>, %r)' % (a, jobs[a][1]), 'pformat(<%s>, %r)' % (b, jobs[b][1])],
+                             'schedule': 'A paused before its traced line %d, B started and paused before its line %d, A ran to '
+                                         'its return, B resumed' % (ka, kb),
+                             'sequential': [seq[a][:200], seq[b][:200]], 'results': [(ra[0], ra[1][:200]), (rb[0], rb[1][:200])]}
+                chk.nontrivial(('overlap', a, b, ka, kb))
+    v, st = common.tlc_batch('ConcurrentCalls', CC_CFG, cases, os.path.join(chk.workdir, 'ccov'), tags=('SAFE',),
+                             min_per_shard=100)
+    chk.add_model(st)
+    nv = 0
+    for c in cases:
+        if c['id'] not in v['SAFE']:
+            nv += 1
+            chk.violation('C20.sequential', 'two overlapping pformat calls (B still running when A returns): a call did not '
+                          'return its sequential result: %r' % (meta[c['id']],), meta[c['id']])
+    chk.stage('overlapped-call schedules', executions=len(cases), violations=nv)
+    chk.cov['traces_validated_against_impl'] += len(cases)
+    return len(cases)
+
+
 def registry_path_scenario(chk):
     """Line-level preemption over EVERY function of prettyprinter.py (not only the dispatch-path functions the
     step-wise scheduler traces): thread A is paused before its k-th line while thread B runs a whole print, for
@@ -328,6 +414,7 @@ def check_c20(chk, args):
         chk.stage('tlc.validate', threads=n, traces=len(cases), states=st['distinct'])
     nsched += layout_path_scenario(chk)
     nsched += registry_path_scenario(chk)
+    nsched += overlap_scenario(chk)
     chk.cov['evaluations'] = nsched
     chk.cov['traces_validated_against_impl'] += nsched
     chk.cov['rule'] = ('executions of 2-3 threads printing lazily registered / subclass / directly registered / '
